@@ -24,7 +24,11 @@ RULE = ('every op of the catalogue (tensor and nn ops) inside a fan-out graph: i
         'is compared after every call. Layer OBJECTS with state (BatchNorm1d / BatchNorm2d with running statistics through the layer or through '
         'persistent tensors handed to the function, momentum incl. None; Dropout with dictated draws) called 2-5 times inside one graph in '
         'train and eval mode, on leaves and on each other\'s outputs, before backward: the model is told the statistics / mask in force at '
-        'each call (documented rule), so what a call saved at forward time must be what its backward uses.')
+        'each call (documented rule), so what a call saved at forward time must be what its backward uses. '
+        'GATHERS (embedding style): a table of rank 1-3 (leaf or interior, other consumers) indexed 1-3 times by integer lists along any axis whose '
+        'repeats are written through MIXED spellings (a row once as q and once as q - n: no written value repeats), by plain repeats, or without '
+        'repeats, between slices / ellipsis / newaxis, the list arriving as a Python list, a list of NumPy integers or an int64 / int32 / intp '
+        'ndarray; the gathered rows feed products with weights, tanh, reductions, a projection matmul, a second-level gather, and a weighted total.')
 EXHAUSTIVE = {'quick': False, 'thorough': False}
 ASSUMPTIONS = ['float64 programs; summation order of NumPy reductions differs from the model by rounding only (rel 1e-9)']
 TRUSTED_BASE = ['harness/tprog.py, harness/gen_dag.py (generator, executor, canonicalisation)', 'harness/extract.py (op table extractor)']
@@ -240,7 +244,9 @@ def shared_case(rng, op):
     or an interior tensor) has other consumers, created before or after it — among them the same op applied AGAIN with other arguments
     (unbind along dim 0 and along dim -1 of one tensor). 1-3 roots, each the weighted total of a subset of the sinks summed in a
     shuffled order (which backward function reaches the shared buffer first depends on it); the history back-propagates the roots one
-    after another, in any order, a root possibly twice, the leaves zeroed in between or left to accumulate."""
+    after another, in any order, a root possibly twice, the leaves zeroed in between or left to accumulate. Among the roots: a COMPOSITE
+    one (an earlier root + another total: l1.backward() then (l1 + l2).backward(), in either order) and INTERIOR ones (an output of the
+    op itself, or another consumer of its operand, with a non-uniform upstream gradient, before / between / after the final roots)."""
     import gen_ops
     gen = gen_ops.gen_basic if op in gen_ops.OPS_BASIC else gen_ops.gen_nn
     for _ in range(30):
@@ -271,6 +277,9 @@ def shared_case(rng, op):
             ins2, args2 = [x] + list(range(1, nl)), args
             for _ in range(40):
                 l2, a2 = gen(rng, op, False)
+                if op == 'pow':        # the new exponent has to keep the data of the shared operand inside the domain of pow and of its derivative
+                    e2 = common.bitsf(a2[0])
+                    if (e2 < 1 and any(v == 0 for v in leaves[0][1])) or (e2 != int(e2) and any(v < 0 for v in leaves[0][1])): continue
                 if tuple(l2[0][0]) == tuple(s0) and len(l2) == nl:
                     ins2 = [x] + [P.add_leaf(lf[0], lf[1], (lf[2] if len(lf) > 2 else True) and (lf[3] if len(lf) > 3 else 'f64') == 'f64', lf[3] if len(lf) > 3 else 'f64') for lf in l2[1:]]
                     args2 = a2
@@ -295,20 +304,124 @@ def shared_case(rng, op):
         rng.shuffle(sub)
         roots.append(total_of(rng, P, sub))
         through.append(any(t in opouts for t in sub))
-    seq = list(range(nroots)) + [rng.randrange(nroots) for _ in range(rng.randint(0, 1))]
+    # a COMPOSITE root: an earlier root plus something else (l1.backward() ... (l1 + l2).backward()): the sub-graph of l1 — the op's node
+    # with it — is traversed again, through one more node
+    composite = rng.chance(.4)
+    if composite:
+        i = rng.randrange(nroots)
+        if nroots > 1 and rng.chance(.5):
+            j = rng.pick([k for k in range(nroots) if k != i]); other, thr = roots[j], through[j]
+        else:
+            sub = [t for t in sinks if rng.chance(.5)] or [rng.pick(sinks)]
+            other, thr = total_of(rng, P, sub), any(t in opouts for t in sub)
+        roots.append(P.add_op('add', [roots[i], other] if rng.chance(.5) else [other, roots[i]], [], [()])[0])
+        through.append(through[i] or thr)
+    nr = len(roots)
+    seq = list(range(nr)) + [rng.randrange(nr) for _ in range(rng.randint(0, 1))]
     rng.shuffle(seq)
-    if sum(1 for r in seq if through[r]) < 2:        # the op's node is traversed by at least two calls
-        seq.insert(rng.randint(0, len(seq)), 0)
+    if composite and rng.chance(.5):       # the part first, then the whole
+        seq = [r for r in seq if r != i or r == nr - 1]; seq.insert(seq.index(nr - 1), i)
+    calls = [(roots[r], gen_dag.rand_data(rng, (), -2, 2), through[r]) for r in seq]
+    # INTERIOR roots: backward from an output of the op itself (or from another consumer of its operand) with a non-uniform upstream
+    # gradient, before / between / after the calls from the final roots
+    interior = rng.chance(.45)
+    if interior:
+        for _ in range(rng.randint(1, 2)):
+            t = rng.pick(opouts) if rng.chance(.7) else rng.pick(sinks)
+            calls.insert(rng.randint(0, max(0, len(calls) - 1)), (t, gen_dag.rand_data(rng, P.tshape[t], -2, 2), t in opouts))
+    if sum(1 for c_ in calls if c_[2]) < 2:        # the op's node is traversed by at least two calls
+        calls.insert(rng.randint(0, len(calls)), (roots[0], gen_dag.rand_data(rng, (), -2, 2), True))
     events = []
     lf = [nd['outs'][0] for nd in P.nodes if nd['kind'] == 'leaf' and nd['rg']]
-    for k, r in enumerate(seq):
+    for k, (t, g, _) in enumerate(calls):
         if k and rng.chance(.25):
-            events += [('zero', t) for t in lf]
-        events.append(('bw', roots[r], gen_dag.rand_data(rng, (), -2, 2)))
+            events += [('zero', t_) for t_ in lf]
+        events.append(('bw', t, g))
+    seq = [t for t, _, _ in calls]
     c = finish_hist(rng, P, events)
     c['hist_op'] = op
     c['shape'] = {'roots': nroots, 'calls': len(seq), 'same_root_twice': len(set(seq)) < len(seq), 'op_twice': len([p for p in plan if p in ('op', 'op2')]) > 1,
-                  'operand': 'leaf' if x == 0 else 'interior', 'zeroed_between': any(e[0] == 'zero' for e in events)}
+                  'operand': 'leaf' if x == 0 else 'interior', 'zeroed_between': any(e[0] == 'zero' for e in events),
+                  'composite_root (an earlier root + another one)': composite, 'interior_root (an output of the op as root)': interior}
+    return c
+
+
+# ---- gathers: integer-array indices inside graphs --------------------------------------------------------------------------------
+class GatherExec(tprog.Impl):
+    """an integer-list index reaches the library in the containers user code holds ids in: a Python list, a list of NumPy integers, an
+    int64 / int32 / intp ndarray, a tuple nested in the index tuple (NumPy reads all of them as one integer-array index)"""
+    def _index(self, sel):
+        self.nidx = getattr(self, 'nidx', 0) + 1
+        def spell(t):
+            if not isinstance(t, list): return t
+            k = (sum(t) + len(t) + self.nidx) % 5
+            return t if k == 0 else [np.int64(v) for v in t] if k == 1 else np.array(t, dtype=[np.int64, np.int32, np.intp][k - 2])
+        sel = tuple(spell(t) for t in sel)
+        return sel[0] if len(sel) == 1 else sel
+
+
+EXECS_GATHER = 'gather'
+
+
+def gather_case(rng, tier='quick'):
+    """EMBEDDING-style graphs: a table (rank 1-3, a leaf or an interior tensor, possibly with other consumers) is gathered 1-3 times with
+    integer lists along ANY axis whose repeats are written through mixed spellings — the same row once as q and once as q - n, so that
+    no written value repeats —, plain repeats, or no repeats, surrounded by slices / ellipsis / newaxis; the gathered tensors feed further
+    ops (a product with per-position weights that may require grad, tanh, a reduction, a matmul with a projection, a second gather of
+    the gathered rows) and are joined by a weighted total. The gradient of the table is the sum over ALL paths through every selected row."""
+    import gen_ops
+    P = gen_dag.Prog()
+    rank = rng.pick([1, 2, 2, 2, 3])
+    sh = tuple(rng.randint(1, 4) for _ in range(rank))
+    E = P.add_leaf(sh, gen_dag.rand_data(rng, sh), True)
+    x = E
+    if rng.chance(.4):
+        x = P.add_op(rng.pick(['clone', 'neg']), [E], [], [sh])[0]
+    kinds = []
+    outs = []
+    for j in range(rng.randint(1, 3)):
+        mode = rng.pick(['alias', 'alias', 'alias', 'repeat', 'plain'])
+        if mode == 'plain':
+            ax = rng.randrange(rank)
+            lst = rng.sample(range(sh[ax]), rng.randint(1, sh[ax])); lst = [q if rng.chance(.5) else q - sh[ax] for q in lst]
+            sel = tuple([slice(None, None, 1)] * ax + [lst])
+        else:
+            sel = gen_ops.index_expr_list(rng, sh, alias=(mode == 'alias'))
+        o = add_op_asking(P, 'slice', [x], [tprog.show_sel(sel)])
+        if o is None: continue
+        if not any(isinstance(t, list) for t in sel): continue
+        kinds.append(mode + '/axis=' + str(next(k for k, t in enumerate(s_ for s_ in sel if s_ is not None) if isinstance(t, list))) +
+                     ('/newaxis' if any(t is None for t in sel) else '') + ('/ellipsis' if any(t is Ellipsis for t in sel) else ''))
+        g = o[0]
+        gs = P.tshape[g]
+        for _ in range(rng.randint(0, 2)):      # what the gathered rows feed
+            r = rng.random()
+            if r < .3:
+                w = P.add_leaf(gs, gen_dag.rand_data(rng, gs), rng.chance(.5))
+                g = P.add_op('mul', [g, w] if rng.chance(.5) else [w, g], [], [gs])[0]
+            elif r < .45:
+                g = P.add_op('tanh', [g], [], [gs])[0]
+            elif r < .6 and len(gs) >= 1:
+                o2 = add_op_asking(P, 'sum', [g], [f'i:{rng.randrange(-len(gs), len(gs))}', int(rng.chance(.5))])
+                if o2: g = o2[0]
+            elif r < .8 and len(gs) == 2:
+                m = rng.randint(1, 3)
+                W = P.add_leaf((gs[1], m), gen_dag.rand_data(rng, (gs[1], m)), True)
+                g = P.add_op('matmul', [g, W], [], [(gs[0], m)])[0]
+            elif len(gs) >= 1 and 0 not in gs:     # the gathered rows gathered again (ids of ids)
+                sel2 = gen_ops.index_expr_list(rng, gs, alias=rng.chance(.7))
+                o2 = add_op_asking(P, 'slice', [g], [tprog.show_sel(sel2)])
+                if o2: g = o2[0]; kinds.append('second-level')
+            gs = P.tshape[g]
+        outs.append(g)
+    if not outs: return None
+    if rng.chance(.3):
+        outs.append(P.add_op('mul', [x, x], [], [sh])[0])        # the table has a consumer that is no gather
+    rng.shuffle(outs)
+    total_of(rng, P, outs)
+    c = finish_case(rng, P)
+    c['exec'] = EXECS_GATHER
+    c['gather'] = kinds
     return c
 
 
@@ -393,7 +506,7 @@ class StatefulExec(tprog.Impl):
         return sg.batch_norm(x[0], w, b, L[0], L[1], tr, mom, eps)
 
 
-EXECS = {None: tprog.Impl, 'stateful': StatefulExec}
+EXECS = {None: tprog.Impl, 'stateful': StatefulExec, 'gather': GatherExec}
 
 
 def _bn_np(X, gam, bet, m, v, eps):
@@ -523,6 +636,12 @@ def cases(rng, tier):
             c = listop_case(rng, op)
             c['order'] = c['P'].topo_shuffle(rng)
             out.append(c)
+    # embedding-style gathers: integer lists whose repeats are written through mixed spellings, along any axis, feeding further ops
+    for _ in range(40 if tier == 'quick' else 1500):
+        c = gather_case(rng, tier)
+        if c:
+            c['order'] = c['P'].topo_shuffle(rng)
+            out.append(c)
     # corpus: diamond, repeated operand, unbind outputs consumed separately, non-differentiable branch
     for spec in CORPUS:
         P = gen_dag.Prog()
@@ -599,9 +718,15 @@ def distribution(cases):
     for c in hist:
         sh = c['shape']
         for k in (f"history/calls={sh['calls']}", f"history/roots={sh['roots']}", f"history/operand={sh['operand']}") + \
-                 tuple(f'history/{f}' for f in ('same_root_twice', 'op_twice', 'zeroed_between') if sh[f]):
+                 tuple(f'history/{f}' for f in sh if sh[f] is True):
             d[k] = d.get(k, 0) + 1
     d['history/ops covered'] = len({c['hist_op'] for c in hist})
+    ga = [c for c in cases if c.get('gather')]
+    d['gathers: integer-list indices inside graphs (embedding style)'] = len(ga)
+    for c in ga:
+        for k in c['gather']:
+            k = 'gather/' + k
+            d[k] = d.get(k, 0) + 1
     st = [c for c in cases if c.get('exec') == 'stateful']
     d['stateful: layer objects called several times in one graph'] = len(st)
     for c in st:
@@ -729,8 +854,20 @@ def fd_blind(P):
     return any(abs(v) >= 2.0 ** 20 for nd in P.nodes if nd['kind'] == 'leaf' and nd.get('dt', 'f64') == 'f64' for v in nd['data'])
 
 
+def outside_domain(c):
+    """some tensor of the program is not finite (a pole of pow / log inside the data): the composed function has no derivative there and
+    finite differences across the pole say nothing"""
+    P = c['P']
+    lines, _ = tag_lines(P)
+    io = tprog.run_program(lines + [f't val {k}' for k in range(len(P.tshape))], EXECS[c.get('exec')])
+    for s_ in io[len(lines):]:
+        if '|' in s_ and not np.all(np.isfinite(tprog.parse_arr(s_))):
+            return True
+    return False
+
+
 def oracle(c):
-    if fd_blind(c['P']):
+    if fd_blind(c['P']) or outside_domain(c):
         return None
     if c.get('kind') == 'hist':
         return hist_oracle(c)
@@ -740,7 +877,7 @@ def oracle(c):
     pre = list(c.get('pre') or [])        # the preliminary backward from an interior tensor (+ zeroing of the leaves), if the case has one
     lines = lines + pre
     prog = lines + [f"t bw {c['root']} {show_ints(P.tshape[c['root']])} {show_floats(c['g'])}"] + [f't grad {k}' for k in range(nt)]
-    io = tprog.run_program(prog)
+    io = tprog.run_program(prog, EXECS[c.get('exec')])
     key = {'ops': sorted({n['name'] for n in P.nodes if n['kind'] == 'op'})}
     rootnode = P.nodes[P.owner[c['root']]]
     if 'rejected' in io[:len(lines)]:
@@ -764,6 +901,7 @@ def oracle(c):
 def _strip(c):
     P = c['P']
     d = {'nodes': P.nodes, 'root': c['root'], 'g': c['g'], 'pre': c.get('pre') or []}
+    if c.get('exec'): d['exec'] = c['exec']
     if c.get('kind') == 'hist':
         d.update({'kind': 'hist', 'events': [list(e) for e in c['events']], 'exec': c.get('exec')})
     return d
@@ -783,7 +921,7 @@ def _unstrip(d):
         else:
             P2.add_op(nd['name'], nd['ins'], nd['args'], [shapes[o] for o in nd['outs']])
             if nd.get('tag'): P2.nodes[-1]['tag'] = nd['tag']
-    c = {'P': P2, 'root': d['root'], 'g': d['g'], 'pre': d.get('pre') or []}
+    c = {'P': P2, 'root': d['root'], 'g': d['g'], 'pre': d.get('pre') or [], 'exec': d.get('exec')}
     if d.get('kind') == 'hist':
         c.update({'kind': 'hist', 'events': [tuple(e) for e in d['events']], 'exec': d.get('exec')})
     return c
@@ -803,6 +941,11 @@ def search(rng, tier):
             yield f
     for _ in range(30):
         f = oracle(stateful_case(rng))
+        if f:
+            yield f
+    for _ in range(40):
+        c = gather_case(rng)
+        f = c and oracle(c)
         if f:
             yield f
 
